@@ -85,13 +85,14 @@ func (s *JavaAPIListener) EnterAnnotation(ctx *parser.AnnotationContext) {
 		isSpringRestController = true
 	}
 
-	if !isSpringRestController {
+	if !hasEnterClass {
+		// class-level annotation: it only sets the base path, it never starts a handler entry.
+		// Annotations are unordered, so the mapping may precede the controller annotation.
+		buildBaseApiUrlString(annotationName, ctx)
 		return
 	}
 
-	if !hasEnterClass {
-		// class-level annotation: it only sets the base path, it never starts a handler entry
-		buildBaseApiUrlString(annotationName, ctx)
+	if !isSpringRestController {
 		return
 	}
 
